@@ -209,6 +209,13 @@ def writeForever():
     else:
       # Avoid churning CPU when there are no metrics are in the cache
       time.sleep(1)
+  # The reactor is shutting down: datapoints may have been cached while we were
+  # sleeping (or held back by MIN_TIMESTAMP_LAG, which the shutdown trigger has
+  # reset by now), so flush the cache one last time before the thread exits.
+  try:
+    writeCachedDataPoints()
+  except Exception:
+    log.err()
 
 
 def writeTags():
